@@ -73,8 +73,12 @@ type Runner struct {
 	Quiet bool
 	// CorruptIndex: the next UpdateV2TransactionSet / V2TransactionSet call is given an index whose
 	// height contradicts the block it names (one shot)
-	CorruptIndex  bool
-	deferred      []rec
+	CorruptIndex bool
+	deferred     []rec
+	// Old1 / Old2: private copies of every transaction a submission got accepted, as submitted (with
+	// the basis its proofs belong to): material for submitting the same objects again much later
+	Old1          []OldTx
+	Old2          []OldTx
 	window        []windowRead // what the listeners read from inside notifications since the last observation
 	lastRev       *chaingen.Node
 	minedFromPool map[*chaingen.Node]bool           // blocks mined from the pool by coreutils.MineBlock and adopted
@@ -93,6 +97,14 @@ func NewRunner(w *World, fail func(kind, detail string)) *Runner {
 	r := &Runner{W: w, Sim: s, CM: s.CM, Tip: w.T.Nodes[0], Start: w.T.Nodes[0], Known: map[*chaingen.Node]bool{w.T.Nodes[0]: true}, Applied: map[*chaingen.Node]bool{w.T.Nodes[0]: true},
 		Meta: map[types.TransactionID]Meta{}, minedFromPool: map[*chaingen.Node]bool{}, elemNode: map[*chaingen.Node]*chaingen.Node{w.T.Nodes[0]: w.T.Nodes[0]}, Fail: fail, Stats: map[string]int{}, MW: 2_000_000}
 	return r
+}
+
+// OldTx is a transaction that was accepted earlier.
+type OldTx struct {
+	V1    types.Transaction
+	V2    types.V2Transaction
+	Meta  Meta
+	Basis types.ChainIndex
 }
 
 // windowRead is what a listener read from inside a notification (the manager's lock is released
@@ -436,6 +448,7 @@ func (r *Runner) Submit1(txs []types.Transaction, metas []Meta) (known bool, err
 			for i, t := range txs {
 				if !was[t.ID()] {
 					r.Meta[t.ID()] = metas[i]
+					r.Old1 = append(r.Old1, OldTx{V1: t, Meta: metas[i]})
 				}
 			}
 		}
@@ -474,6 +487,7 @@ func (r *Runner) Submit2(basis types.ChainIndex, txs []types.V2Transaction, meta
 			for i, t := range txs {
 				if !was[t.ID()] {
 					r.Meta[t.ID()] = metas[i]
+					r.Old2 = append(r.Old2, OldTx{V2: CopyV2(t), Meta: metas[i], Basis: basis})
 				}
 			}
 		}
